@@ -122,6 +122,9 @@ func runConn(o hs.Opts) *connResult {
 			res.BuildErr = err
 		}
 	}
+	if res.BuildErr == nil && o.Prepare != nil {
+		res.BuildErr = o.Prepare(uc)
+	}
 	if res.BuildErr == nil {
 		res.BuildErr = uc.BuildHandshakeState()
 	}
